@@ -469,6 +469,15 @@ func (s *Server) handleSearchRecords(w http.ResponseWriter, r *http.Request) {
 		embeddingTime = time.Since(startEmbed)
 	}
 
+	// A nearest-neighbour or radius search needs a query vector of the
+	// collection's dimension; anything else panics inside the distance code.
+	if searchArgs.K != 0 || searchArgs.Radius != 0 {
+		if dimensions := collection.GetOptions().DimensionCount; len(searchArgs.Vector) != dimensions {
+			http.Error(w, fmt.Sprintf("Search vector has %d dimensions, collection expects %d", len(searchArgs.Vector), dimensions), http.StatusBadRequest)
+			return
+		}
+	}
+
 	startSearch := time.Now()
 	results := collection.Search(searchArgs)
 	searchTime := time.Since(startSearch)
